@@ -208,6 +208,16 @@ pub fn documents(tier: Tier) -> Vec<Doc> {
             base.push((format!("pool:{n}"), "pool".into(), v));
         }
     }
+    // number forms at the edges of what an i32 / f32 can carry (a loader must keep an integer
+    // literal exact, not squeeze it through a float)
+    let numbers = "VAR big = 123456789\nVAR edge = 16777217\nVAR top = 2147483647\nVAR low = -2147483647\nVAR f = 0.1\nVAR g = 16777216.0\nVAR tiny = 0.000001\n\
+        {big} {edge} {top} {low} {f} {g} {tiny}\n{big % 10} {edge == 16777216} {top - 2000000001} {low + 2147483646} {2000000001} {1000000007 * 3}\n\
+        {big / 1000} {f + f} {0.5} {1.5 * 2} {100000.5} {3.0}\n* [{edge}] pick {top}\n- {big - 123456788}\n-> END\n";
+    if let CompileOutcome::Ok(p) = Prog::from_source("numbers", numbers)
+        && let Ok(v) = serde_json::from_str::<Value>(&p.json)
+    {
+        base.push(("gen:numbers".into(), "number-edges".into(), v));
+    }
     let mut docs = vec![];
     for (id, feat, v) in &base {
         for (vn, ea, pretty, alt) in [("plain", false, false, false), ("escaped", true, false, false), ("pretty", false, true, false), ("numbers", false, false, true), ("all", true, true, true)] {
